@@ -297,7 +297,9 @@ def d6(chk, prog):
     fi = prog.fn(f"{FIX}.center_by_window")
     tb = Table(chk, "deterministic-correction", "center_by_window on 6 bins (covariate as Series / ndarray; with ties)", fi.loc(), fi.qn)
     perm = [3, 0, 5, 1, 4, 2]
-    for as_series in (True, False):
+    # the covariate comes as an ndarray, as a Series on the bins' own index, or as a Series still carrying the row labels of the (filtered) reference it was taken
+    # from while the bins were renumbered by an earlier correction: it is paired with the bins by position in every case
+    for as_series in (True, False, "foreign labels"):
         W.reset()
         keys = [Fr(5, 10), Fr(2, 10), Fr(5, 10), Fr(9, 10), Fr(2, 10), Fr(7, 10)]
         ev = []
@@ -331,9 +333,14 @@ def d6(chk, prog):
         it = Interp(prog, model)
         lg = [Term.sym(f"v{i}") for i in range(6)]
         rows = [dict(chromosome="chr1", start=100 * i, end=100 * i + 50, gene="g", log2=lg[i]) for i in range(6)]
-        arr = make_ga("CopyNumArray", rows, {"sample_id": "S"}, index="any", exact=True)
-        key = Vec(keys, aligned=True) if as_series else Vec(keys)
-        out = tb.guard(lambda: it.run(fi.qn, [arr, Fr(1, 10), key]), f"covariate as {'Series' if as_series else 'ndarray'}")
+        if as_series == "foreign labels":
+            arr = make_ga("CopyNumArray", rows, {"sample_id": "S"}, exact=True, labels=[0, 1, 2, 3, 4, 5])
+            key = Vec(keys, aligned="subset")
+            key.exact, key.labels = True, [10, 11, 13, 14, 16, 17]
+        else:
+            arr = make_ga("CopyNumArray", rows, {"sample_id": "S"}, index="any", exact=True)
+            key = Vec(keys, aligned=True) if as_series else Vec(keys)
+        out = tb.guard(lambda: it.run(fi.qn, [arr, Fr(1, 10), key]), f"covariate as {'a Series on another table labels' if as_series == 'foreign labels' else 'Series' if as_series else 'ndarray'}")
         if out is None:
             continue
         seeds = [e for e in ev if e[0] == "seed"]
@@ -350,7 +357,7 @@ def d6(chk, prog):
         starts_out = [int(T(s_).cval()) for s_ in out.data.cols["start"].v]
         ok_sorted = ("__sorted__" in out.data.cols or starts_out == sorted(starts_out)) and out is not arr and all(same(a, b) for a, b in zip(arr.data.cols["log2"].v, lg))
         sorts = [e for e in ev if e[0] == "argsort"]
-        tb.cell(ok_seed and ok_order and ok_sub and ok_sorted, dict(covariate="Series" if as_series else "ndarray", seeded_before_draw=ok_seed, sort_kind=sorts[0][1] if sorts else None,
+        tb.cell(ok_seed and ok_order and ok_sub and ok_sorted, dict(covariate=("Series on another table's labels" if as_series == "foreign labels" else "Series" if as_series else "ndarray"), seeded_before_draw=ok_seed, sort_kind=sorts[0][1] if sorts else None,
                                                                      smoothing_order=rm[0][1] if rm else None, want_order=[repr(lg[i]) for i in ranked], subtraction_ok=ok_sub, resorted_and_input_untouched=ok_sorted))
     tb.done("the windowed bias correction is not (seeded shuffle, stable sort by the covariate, rolling median of log2 in that order subtracted bin by bin, re-sorted)")
 
